@@ -157,7 +157,8 @@ _add('C09',
      'routing / class-change decision is allowed by the specification read from the configuration: positive probability (TransitionMatrix, Probabilistic, '
      'class-change matrices), Direct/Leave/jockeying determined, Cycle in step, process-based routes followed in order, flexible routes within the subset '
      'and consumed per rule, JSQ/LB towards a listed destination minimal for the TRUE waiting line / population at that instant, priority = mapping[class] '
-     'after every event. K1: observed runs with every router kind; strict mode also ties each choice to the model evaluated on the logged draw.',
+     'after every event. K1: observed runs with every router kind; strict mode also ties each choice to the model evaluated on the logged draw. '
+     'T2 finish_service_route (Coq, Inv/Route.v, engine model stage 1 = transition matrices + class-change matrices): for every configuration with non-negative rows and every oracle whose uniform draws are > 0, at a service completion the new class has positive probability in the class-change row, the destination positive probability in the routing row (exit: positive remainder), and the customer is released or blocked towards exactly that destination. K2 on that slice.',
      'Mechanism clauses (exact index from the draw; counters = true lines) are correspondence obligations; open findings F-09a, F-09b are reported as '
      'KNOWN-FINDING. Probabilities are eighths (exact in binary64); one-ulp effects of float probabilities are outside the model.',
      technique='Coq theorems about a hand-written model of random_choice/JSQ + acceptor; conformance of real traces and stepwise correspondence of each decision with the model')
